@@ -647,6 +647,8 @@ def compare_with_expected(view, exp, raw):
             for (cn, ty, alen), a, b in zip(te['cols'], rv, re_):
                 if raw and ty == 'f4':
                     def narrow(x):
+                        if not isinstance(x, dict):        # a cell of another kind than the column's type is an answer
+                            return x
                         if x['b'] == 'nan':
                             return {'w': 4, 'b': 'nan'}
                         return {'w': 4, 'b': c01.f32bits(np.float32(c01.fval(x)))}
